@@ -519,22 +519,22 @@ class URL:
     def __le__(self, other: object) -> bool:
         if type(other) is not URL:
             return NotImplemented
-        return self._val <= other._val
+        return self._sort_key <= other._sort_key
 
     def __lt__(self, other: object) -> bool:
         if type(other) is not URL:
             return NotImplemented
-        return self._val < other._val
+        return self._sort_key < other._sort_key
 
     def __ge__(self, other: object) -> bool:
         if type(other) is not URL:
             return NotImplemented
-        return self._val >= other._val
+        return self._sort_key >= other._sort_key
 
     def __gt__(self, other: object) -> bool:
         if type(other) is not URL:
             return NotImplemented
-        return self._val > other._val
+        return self._sort_key > other._sort_key
 
     def __truediv__(self, name: str) -> "URL":
         if not isinstance(name, str):
@@ -614,6 +614,12 @@ class URL:
     @cached_property
     def _val(self) -> SplitURLType:
         return (self._scheme, self._netloc, self._path, self._query, self._fragment)
+
+    @cached_property
+    def _sort_key(self) -> SplitURLType:
+        """Ordering key; normalizes the path the same way ``==`` and ``hash()`` do."""
+        path = "/" if not self._path and self._netloc else self._path
+        return (self._scheme, self._netloc, path, self._query, self._fragment)
 
     @cached_property
     def _origin(self) -> "URL":
